@@ -224,6 +224,9 @@ def h_tconst(op):
         elif op == 'alter_vin':
             m.alter('M', 'GEN', val, attr='vin')
             want = val
+        elif op == 'group_set_v':
+            ss.SynGen.set('M', ['GEN'], 'v', [val])
+            want = val
         else:
             m.set('M', 'GEN', 'v', val)
             want = val
@@ -510,7 +513,7 @@ def main():
     if not thorough:
         seqs = [s for i, s in enumerate(seqs) if (i + core.seed()) % 2 == 0]
     jobs += [('seq', s) for s in seqs]
-    jobs += [('tc', o) for o in ('alter_v', 'alter_vin', 'set_v')] + [('tcsh', o) for o in ('alter_v', 'set_v')] + [('struct', 0), ('export', 0), ('json', 0)] + [('stock', mn) for mn in STOCK_KIND] + [('padd', f) for f in ((0, 0, 0), (1, 0, 0), (0, 1, 0), (0, 0, 1), (1, 1, 0), (1, 0, 1))]
+    jobs += [('tc', o) for o in ('alter_v', 'alter_vin', 'set_v', 'group_set_v')] + [('tcsh', o) for o in ('alter_v', 'set_v')] + [('struct', 0), ('export', 0), ('json', 0)] + [('stock', mn) for mn in STOCK_KIND] + [('padd', f) for f in ((0, 0, 0), (1, 0, 0), (0, 1, 0), (0, 0, 1), (1, 1, 0), (1, 0, 1))]
     ck.merge(core.pmap(job, jobs))
     ck.sample({'sequence': 'alter_v@0 > alter_vin@1', 'claim': 'v = vin*k, export = altered vin'})
     ck.finish()
